@@ -4,6 +4,7 @@ import (
 	"encoding/json"
 	"flag"
 	"fmt"
+	"github.com/elk-language/elk/types/checker"
 	"os"
 	"sort"
 	"strconv"
@@ -28,6 +29,13 @@ func envSeed() int64 {
 func main() {
 	if len(os.Args) < 2 {
 		usage()
+	}
+	// Method bodies are checked concurrently by default and that code has data races (listed findings of C11: unsynchronised
+	// publication of method bodies / flags) that now and then hand the compiler a half-published method and crash a run
+	// of any other check that compiles programs with several methods. They are C11's subject: every other check
+	// serialises method checking so that its own verdict does not depend on them.
+	if len(os.Args) > 2 && os.Args[2] != "C11" {
+		checker.MethodCheckConcurrencyLimit = 1
 	}
 	switch os.Args[1] {
 	case "sizes":
